@@ -37,7 +37,7 @@ refactoring introduces, so that every rule sees one form:
   N9  xs = [E for ..]; S(xs)           ->     S([E for ..])      xs a single-use local, S the next statement
       x = a.b; return S(x)             ->     return S(a.b)
       x = E; return x                  ->     return E
-      x = g(..); return Cls(x, ..)     ->     return Cls(g(..), ..)     (Cls a class name, cls or <obj>.__class__)
+      x = g(..); return F(x, ..)       ->     return F(g(..), ..)       (x a direct argument of the returned call, not read in g(..))
       (operands of S evaluated before xs are evaluated after it instead: no rule depends on the order of pure operands)
   N10 [E(t) for t in (a, b, c)]          ->    [E(a), E(b), E(c)]
   N11 if not c: A                            if c: B
@@ -490,7 +490,7 @@ class _Normalise(ast.NodeTransformer):
             if isinstance(st, ast.Assign) and len(st.targets) == 1 and isinstance(st.targets[0], ast.Name) \
                     and (isinstance(st.value, ast.ListComp) or (isinstance(nxt, ast.Return) and self._is_ref(st.value)) or
                          (isinstance(nxt, ast.Return) and isinstance(st.value, ast.Call) and isinstance(nxt.value, ast.Call)
-                          and self._is_class_ref(nxt.value.func) and not _refs(st.value, st.targets[0].id)
+                          and not _refs(st.value, st.targets[0].id)
                           and any(isinstance(a, ast.Name) and a.id == st.targets[0].id for a in nxt.value.args))) \
                     and isinstance(nxt, (ast.Return, ast.Assign, ast.Expr)):
                 name = st.targets[0].id
